@@ -641,7 +641,7 @@ pub fn on_panic(info: &core::panic::PanicInfo) -> ! {
                 sc::syscall!(EXIT, 0);
                 unreachable!();
             }
-            #[cfg(all(target_arch = "x86_64", not(feature = "verif-hooks")))]
+            #[cfg(target_arch = "x86_64")]
             core::arch::asm!(
             // Call munmap, all args are provided in this macro call.
             "syscall",
@@ -658,7 +658,7 @@ pub fn on_panic(info: &core::panic::PanicInfo) -> ! {
             in("rsi") map_len,
             options(nostack, noreturn)
             );
-            #[cfg(all(target_arch = "aarch64", not(feature = "verif-hooks")))]
+            #[cfg(target_arch = "aarch64")]
             core::arch::asm!(
             // Make munmap syscall, unmap stack
             "svc #0",
